@@ -91,6 +91,8 @@ type pkgCtx struct {
 	chans    map[string]bool        // names declared somewhere in the package with a channel type
 	types    map[string]typeDecl    // type declarations of the package
 	alias    map[interface{}]string // receiver field of a singleton type's method -> the package-level variable
+	ptrDecl  map[interface{}]bool   // parameter / receiver fields declared with a pointer type
+	methods  map[string]bool        // method names declared in the package (x.m without a call is a method value, not a field)
 }
 
 var (
@@ -640,6 +642,41 @@ func (p *pkgCtx) classify() {
 		}
 	}
 	p.singletons()
+	p.ptrDecl = map[interface{}]bool{}
+	p.methods = map[string]bool{}
+	for _, fc := range p.files {
+		ast.Inspect(fc.f, func(n ast.Node) bool {
+			var ft *ast.FuncType
+			switch x := n.(type) {
+			case *ast.FuncDecl:
+				ft = x.Type
+				if x.Recv != nil {
+					p.methods[x.Name.Name] = true
+					for _, f := range x.Recv.List {
+						if _, ok := f.Type.(*ast.StarExpr); ok {
+							p.ptrDecl[f] = true
+						}
+					}
+				}
+			case *ast.FuncLit:
+				ft = x.Type
+			case *ast.InterfaceType:
+				for _, m := range x.Methods.List {
+					for _, nm := range m.Names {
+						p.methods[nm.Name] = true
+					}
+				}
+			}
+			if ft != nil && ft.Params != nil {
+				for _, f := range ft.Params.List {
+					if _, ok := f.Type.(*ast.StarExpr); ok {
+						p.ptrDecl[f] = true
+					}
+				}
+			}
+			return true
+		})
+	}
 	for _, fc := range p.files {
 		for _, d := range fc.f.Decls {
 			gd, ok := d.(*ast.GenDecl)
@@ -784,6 +821,51 @@ type accs struct {
 	fc     *fileCtx
 	reads  map[string]bool // "id" or "id, index, index" (the hook's argument list)
 	writes map[string]bool
+	pr, pw map[string]bool // field accesses through pointer parameters / receivers: source text of the field expression
+}
+
+// ptrField reports whether e is a pure field selector chain rooted at a pointer-typed
+// parameter or receiver that is not resolved to a package-level variable.
+func (a *accs) ptrField(e ast.Expr) (string, bool) {
+	se, ok := e.(*ast.SelectorExpr)
+	if !ok {
+		return "", false
+	}
+	x := ast.Expr(se)
+	for {
+		sx, ok := x.(*ast.SelectorExpr)
+		if !ok {
+			break
+		}
+		if a.p.methods[sx.Sel.Name] {
+			return "", false
+		}
+		x = sx.X
+	}
+	id, ok := x.(*ast.Ident)
+	if !ok || id.Obj == nil || !a.p.ptrDecl[id.Obj.Decl] {
+		return "", false
+	}
+	if _, aliased := a.p.alias[id.Obj.Decl]; aliased {
+		return "", false
+	}
+	return a.fc.text(e), true
+}
+
+func (a *accs) notePtr(e ast.Expr, write bool) bool {
+	txt, ok := a.ptrField(e)
+	if !ok {
+		return false
+	}
+	if a.pr == nil {
+		a.pr, a.pw = map[string]bool{}, map[string]bool{}
+	}
+	if write {
+		a.pw[txt] = true
+	} else {
+		a.pr[txt] = true
+	}
+	return true
 }
 
 // note records an access to the path of e, if it is rooted at a package-level variable and
@@ -830,7 +912,18 @@ func (a *accs) expr(e ast.Node) {
 							if _, ok := a.p.varPath(u.X); ok {
 								continue
 							}
+							if _, ok := a.ptrField(u.X); ok {
+								continue
+							}
 						}
+						a.expr(arg)
+					}
+					return false
+				}
+				// a method called on a field reached through a pointer: not observed (it may be a
+				// lock, a channel, a generator with its own model)
+				if _, ok := a.ptrField(s.X); ok {
+					for _, arg := range x.Args {
 						a.expr(arg)
 					}
 					return false
@@ -850,6 +943,9 @@ func (a *accs) expr(e ast.Node) {
 		case *ast.SelectorExpr, *ast.IndexExpr, *ast.StarExpr, *ast.SliceExpr:
 			if a.note(x.(ast.Expr), false) {
 				a.indices(x.(ast.Expr))
+				return false
+			}
+			if a.notePtr(x.(ast.Expr), false) {
 				return false
 			}
 		case *ast.KeyValueExpr:
@@ -889,6 +985,9 @@ func (a *accs) indices(e ast.Expr) {
 func (a *accs) lhs(e ast.Expr) {
 	if a.note(e, true) {
 		a.indices(e)
+		return
+	}
+	if a.notePtr(e, true) {
 		return
 	}
 	a.expr(e)
@@ -1029,7 +1128,7 @@ func (p *pkgCtx) rewriteFile(fc *fileCtx) {
 			fc.edits = append(fc.edits, edit{len(fc.src), len(fc.src), fmt.Sprintf("\nfunc init() { %s() }\n", name), 9})
 			p.resetFns = append(p.resetFns, name)
 		}
-		if len(p.instr) > 0 {
+		if !resetOnly {
 			p.hookBlock(fc, fd.Body)
 		}
 	}
@@ -1099,11 +1198,14 @@ func (p *pkgCtx) rewriteFile(fc *fileCtx) {
 	}
 	// 6. extra imports right after the package clause
 	extra := ""
-	for _, k := range []string{"vchan", "vsched", "vrace"} {
+	for _, k := range []string{"vchan", "vsched", "vrace", "vunsafe"} {
 		if fc.need[k] {
 			path := base + k
 			if k == "vsched" {
 				path = base + "sched"
+			}
+			if k == "vunsafe" {
+				path = "unsafe"
 			}
 			extra += fmt.Sprintf("\nimport %s %q", k, path)
 		}
@@ -1354,6 +1456,24 @@ func (p *pkgCtx) hookList(fc *fileCtx, list []ast.Stmt) {
 				fn += "K" // keyed by the index values: every element is a variable of its own
 			}
 			txt += fmt.Sprintf("vrace.%s(%s); ", fn, id)
+		}
+		var ptrs []string
+		for e := range a.pw {
+			ptrs = append(ptrs, e)
+		}
+		for e := range a.pr {
+			if !a.pw[e] {
+				ptrs = append(ptrs, e)
+			}
+		}
+		sort.Strings(ptrs)
+		for _, e := range ptrs {
+			fn := "RA"
+			if a.pw[e] {
+				fn = "WA"
+			}
+			txt += fmt.Sprintf("vrace.%s(vunsafe.Pointer(&%s)); ", fn, e)
+			fc.need["vunsafe"] = true
 		}
 		if txt != "" {
 			fc.need["vrace"] = true
